@@ -5,6 +5,7 @@ import Sentinel.DriverWorld
 import Sentinel.DriverC10
 import Sentinel.DriverC12
 import Sentinel.DriverC17
+import Sentinel.DriverC18
 /-! Generic driver: reads a trace (`case <id>` headers, `<op> -> <obs>` lines) from stdin, checks
 every case with the property's `checkCase`, prints one line per case. -/
 namespace Sentinel
@@ -17,6 +18,7 @@ def checkerFor (prop : String) : Option (List (String × String) → Verdict) :=
   | "C12" => some DriverC12.checkCase
   | "C13" => some DriverC13.checkCase
   | "C17" => some DriverC17.checkCase
+  | "C18" => some DriverC18.checkCase
   | _ => none
 
 def renderVerdict (id : String) (v : Verdict) : String :=
